@@ -361,7 +361,7 @@ func vfC50GenEv(rt *rapid.T, bal *[vfC50R][vfC50L]int, started *[vfC50R][vfC50L]
 }
 
 func vfC50GenSeq(rt *rapid.T) vfC50SeqPlan {
-	p := vfC50SeqPlan{LoadAfterFinish: rapid.IntRange(0, 3).Draw(rt, "laf") == 0}
+	p := vfC50SeqPlan{LoadAfterFinish: rapid.Bool().Draw(rt, "laf1") && rapid.Bool().Draw(rt, "laf2")}
 	var bal [vfC50R][vfC50L]int
 	var started [vfC50R][vfC50L]bool
 	n := rapid.IntRange(1, vk.Pick(60, 400)).Draw(rt, "nops")
@@ -498,13 +498,13 @@ type vfC50StressPlan struct {
 }
 
 func vfC50GenStress(rt *rapid.T) vfC50StressPlan {
-	p := vfC50StressPlan{LoadAfterFinish: rapid.IntRange(0, 3).Draw(rt, "laf") == 0,
+	p := vfC50StressPlan{LoadAfterFinish: rapid.Bool().Draw(rt, "laf1") && rapid.Bool().Draw(rt, "laf2"),
 		Snappers: rapid.IntRange(1, 3).Draw(rt, "snappers"), SnapMode: 2 * rapid.IntRange(0, 1).Draw(rt, "snapmode")}
 	na := rapid.IntRange(4, vk.Pick(8, 16)).Draw(rt, "actors")
 	for a := 0; a < na; a++ {
 		var bal [vfC50R][vfC50L]int
 		var started [vfC50R][vfC50L]bool
-		act := vfC50Actor{Rep: rapid.IntRange(20, vk.Pick(150, 600)).Draw(rt, "rep")}
+		act := vfC50Actor{Rep: rapid.IntRange(60, vk.Pick(200, 600)).Draw(rt, "rep")}
 		n := rapid.IntRange(4, 24).Draw(rt, "patlen")
 		for len(act.Pat) < n {
 			if e, ok := vfC50GenEv(rt, &bal, &started, p.LoadAfterFinish); ok {
